@@ -6,9 +6,10 @@
    Every theorem is universally quantified over
      value      the type of Excellent values,
      eval_tpl   template evaluation (value, "an error was logged", number of warnings),
-     to_xtext   conversion of a value to text (None: the value is an error),
+     to_xtext   conversion of a value to text (None: it fails - the value is an error or too large to render),
      registered which test ids are registered,   test   the test functions themselves,
-     lc         the localisation context (C18),    max_result_chars   the engine option,
+     lc         the localisation context (C18),    max_result_chars, max_template_chars   the engine options that cut
+                the saved value and the saved input,
    and over all routers: any number and order of cases, any categories (duplicates included), any default. *)
 From Coq Require Import List NArith ZArith QArith Qround Bool.
 From Verif Require Import model.Lang model.Router proofs.LangProofs proofs.RouterProofs.
@@ -25,22 +26,22 @@ Open Scope N_scope.
 Theorem c07_first_match :
   forall (value : Type) (eval_tpl : text -> value * (bool * nat)) (to_xtext : value -> option text)
          (registered : test_id -> bool) (test : test_id -> value -> list value -> test_result value)
-         (lc : lctx) (max_result_chars : nat)
+         (lc : lctx) (max_result_chars max_template_chars : nat)
          (b : base_router) (operand_tpl : text) (cases : list case_def) (default : uuid) (prev : option result),
   let operand := operand_of value eval_tpl operand_tpl in
   let input := operand_text value eval_tpl to_xtext operand_tpl in
   let passed := passed_over value eval_tpl registered test lc operand in
   let skipped := flat_map (skip_events value eval_tpl test lc operand) in
-  let R := route_switch value eval_tpl to_xtext registered test lc max_result_chars b operand_tpl cases default prev in
+  let R := route_switch value eval_tpl to_xtext registered test lc max_result_chars max_template_chars b operand_tpl cases default prev in
   (forall pre c post m x mt cat,
       cases = pre ++ c :: post -> Forall passed pre -> matches value eval_tpl registered test lc operand c m x ->
       opt_to_xtext value to_xtext m = Some mt -> category_with b (k_cat c) cat ->
-      R = through lc max_result_chars b prev cat mt input (extra_json x)
+      R = through lc max_result_chars max_template_chars b prev cat mt input (extra_json x)
                   (operand_events value eval_tpl operand_tpl ++ skipped pre
                    ++ arg_events value eval_tpl lc c ++ extra_events c x))
   /\ (forall cat,
       Forall passed cases -> category_with b default cat ->
-      R = through lc max_result_chars b prev cat input input None
+      R = through lc max_result_chars max_template_chars b prev cat input input None
                   (operand_events value eval_tpl operand_tpl ++ skipped cases
                    ++ default_events value eval_tpl to_xtext operand_tpl))
   /\ (Forall passed cases -> default = no_uuid ->
@@ -79,11 +80,11 @@ Print Assumptions c07_switch_total.
 Theorem c07_switch_rejects :
   forall (value : Type) (eval_tpl : text -> value * (bool * nat)) (to_xtext : value -> option text)
          (registered : test_id -> bool) (test : test_id -> value -> list value -> test_result value)
-         (lc : lctx) (max_result_chars : nat)
+         (lc : lctx) (max_result_chars max_template_chars : nat)
          (b : base_router) (operand_tpl : text) (cases : list case_def) (default : uuid) (prev : option result)
          (pre : list case_def) (c : case_def) (post : list case_def),
   let operand := operand_of value eval_tpl operand_tpl in
-  let R := route_switch value eval_tpl to_xtext registered test lc max_result_chars b operand_tpl cases default prev in
+  let R := route_switch value eval_tpl to_xtext registered test lc max_result_chars max_template_chars b operand_tpl cases default prev in
   cases = pre ++ c :: post ->
   Forall (passed_over value eval_tpl registered test lc operand) pre ->
   let evs := operand_events value eval_tpl operand_tpl ++ flat_map (skip_events value eval_tpl test lc operand) pre in
@@ -102,17 +103,19 @@ Proof. exact route_switch_errors. Qed.
 Print Assumptions c07_switch_rejects.
 
 (* "When a result name is set the saved result carries that category's name, the test's match (the operand itself for
-   the default category) as value and the operand as input" — the value is cut to max_result_chars (c07_truncate);
-   the localized category name is C18's choice (c07_category_localized). *)
+   the default category) as value and the operand as input" — as far as the engine's limits let it: the value is cut to
+   max_result_chars (c07_truncate), the input to max_template_chars with an ellipsis (c07_input_cut), an extra of 10000
+   bytes or more is dropped (c07_extra_bound); the operand returned to the engine (segment) is NOT cut
+   (c07_segment_operand).  The localized category name is C18's choice (c07_category_localized). *)
 Theorem c07_result :
   forall (value : Type) (eval_tpl : text -> value * (bool * nat)) (to_xtext : value -> option text)
          (registered : test_id -> bool) (test : test_id -> value -> list value -> test_result value)
-         (lc : lctx) (max_result_chars : nat)
+         (lc : lctx) (max_result_chars max_template_chars : nat)
          (b : base_router) (operand_tpl : text) (cases : list case_def) (default : uuid) (prev : option result),
   let operand := operand_of value eval_tpl operand_tpl in
   let input := operand_text value eval_tpl to_xtext operand_tpl in
   let passed := passed_over value eval_tpl registered test lc operand in
-  let R := route_switch value eval_tpl to_xtext registered test lc max_result_chars b operand_tpl cases default prev in
+  let R := route_switch value eval_tpl to_xtext registered test lc max_result_chars max_template_chars b operand_tpl cases default prev in
   let localized c := category_localized (lc_contact lc) (lc_allowed lc) (lc_base lc) (c_tr_name c) in
   (b_result_name b = [] -> ro_saved R = None)
   /\ (forall pre c post m x mt cat,
@@ -120,7 +123,8 @@ Theorem c07_result :
       cases = pre ++ c :: post -> Forall passed pre -> matches value eval_tpl registered test lc operand c m x ->
       opt_to_xtext value to_xtext m = Some mt -> category_with b (k_cat c) cat ->
       let r := {| r_name := b_result_name b; r_value := truncate max_result_chars mt; r_category := c_name cat;
-                  r_category_localized := localized cat; r_input := input; r_extra := extra_json x |} in
+                  r_category_localized := localized cat; r_input := truncate_ellipsis max_template_chars input;
+                  r_extra := bound_extra (extra_json x) |} in
       ro_saved R = Some r
       /\ ro_res R = RExit (c_exit cat) input
       /\ ro_events R = (operand_events value eval_tpl operand_tpl
@@ -131,7 +135,8 @@ Theorem c07_result :
       b_result_name b <> [] ->
       Forall passed cases -> category_with b default cat ->
       let r := {| r_name := b_result_name b; r_value := truncate max_result_chars input; r_category := c_name cat;
-                  r_category_localized := localized cat; r_input := input; r_extra := None |} in
+                  r_category_localized := localized cat; r_input := truncate_ellipsis max_template_chars input;
+                  r_extra := None |} in
       ro_saved R = Some r /\ ro_res R = RExit (c_exit cat) input)
   /\ (Forall passed cases -> default = no_uuid -> ro_saved R = None).
 Proof. exact switch_result_spec. Qed.
@@ -141,6 +146,24 @@ Theorem c07_truncate : forall (limit : nat) (t : text),
   ((length t <= limit)%nat -> truncate limit t = t) /\ ((limit < length t)%nat -> truncate limit t = firstn limit t).
 Proof. exact truncate_spec. Qed.
 Print Assumptions c07_truncate.
+
+(* MaxTemplateChars on the saved input *)
+Theorem c07_input_cut : forall (limit : nat) (t : text),
+  ((length t <= limit)%nat -> truncate_ellipsis limit t = t)
+  /\ ((limit < length t)%nat -> (3 <= limit)%nat -> truncate_ellipsis limit t = firstn (limit - 3) t ++ [46; 46; 46])
+  /\ ((limit < length t)%nat -> (limit < 3)%nat -> truncate_ellipsis limit t = firstn limit t)
+  /\ (length (truncate_ellipsis limit t) <= limit)%nat.
+Proof. exact truncate_ellipsis_spec. Qed.
+Print Assumptions c07_input_cut.
+
+(* the extra (marshalled JSON) is kept iff it has fewer than 10000 bytes in UTF-8 *)
+Theorem c07_extra_bound : forall x : option text,
+  bound_extra x = match x with
+                  | Some j => if N.ltb (utf8_len j) 10000 then Some j else None
+                  | None => None
+                  end.
+Proof. exact bound_extra_spec. Qed.
+Print Assumptions c07_extra_bound.
 
 Theorem c07_category_localized : forall (lc : lctx) (c : category),
   exists out used,
@@ -155,15 +178,15 @@ Print Assumptions c07_category_localized.
 Theorem c07_timeout :
   forall (value : Type) (eval_tpl : text -> value * (bool * nat)) (to_xtext : value -> option text)
          (registered : test_id -> bool) (test : test_id -> value -> list value -> test_result value)
-         (lc : lctx) (max_result_chars : nat)
+         (lc : lctx) (max_result_chars max_template_chars : nat)
          (site : call_site) (flow_nodes : list uuid) (nd : node) (r : router) (d : draw) (timed_out_on : text)
          (prev : option result) (u : uuid) (c : category),
   n_router nd = Some r ->
   b_timeout (router_base r) = Some u -> category_with (router_base r) u c -> c_exit c <> no_uuid ->
   let b := router_base r in
-  let res := result_for lc max_result_chars b c timed_out_on [] None in
-  let v := visit value eval_tpl to_xtext registered test lc max_result_chars site flow_nodes nd true d timed_out_on prev in
-  route_timeout lc max_result_chars b timed_out_on prev = through lc max_result_chars b prev c timed_out_on [] None []
+  let res := result_for lc max_result_chars max_template_chars b c timed_out_on [] None in
+  let v := visit value eval_tpl to_xtext registered test lc max_result_chars max_template_chars site flow_nodes nd true d timed_out_on prev in
+  route_timeout lc max_result_chars max_template_chars b timed_out_on prev = through lc max_result_chars max_template_chars b prev c timed_out_on [] None []
   /\ vo_outcome v = NLeft
   /\ vo_step_exit v = c_exit c
   /\ vo_saved v = (if named b then Some res else None)
@@ -174,15 +197,15 @@ Print Assumptions c07_timeout.
 
 (* "a random router by category floor(r*n) for its random draw r": r = d_mant / 10^d_scale (draw_Q) *)
 Theorem c07_random :
-  forall (lc : lctx) (max_result_chars : nat) (b : base_router) (d : draw) (prev : option result),
+  forall (lc : lctx) (max_result_chars max_template_chars : nat) (b : base_router) (d : draw) (prev : option result),
   let n := N.of_nat (length (b_categories b)) in
   let idx := random_index d n in
   (0 <= draw_Q d < 1)%Q -> 0 < n ->
   Qfloor (draw_Q d * inject_Z (Z.of_N n)) = Z.of_N idx
   /\ idx < n
   /\ exists c, nth_error (b_categories b) (N.to_nat idx) = Some c
-       /\ route_random lc max_result_chars b d prev
-          = through lc max_result_chars b prev c (N_to_text idx) (draw_text d) None [].
+       /\ route_random lc max_result_chars max_template_chars b d prev
+          = through lc max_result_chars max_template_chars b prev c (N_to_text idx) (draw_text d) None [].
 Proof. exact random_spec. Qed.
 Print Assumptions c07_random.
 
@@ -190,11 +213,11 @@ Print Assumptions c07_random.
 Theorem c07_no_router :
   forall (value : Type) (eval_tpl : text -> value * (bool * nat)) (to_xtext : value -> option text)
          (registered : test_id -> bool) (test : test_id -> value -> list value -> test_result value)
-         (lc : lctx) (max_result_chars : nat)
+         (lc : lctx) (max_result_chars max_template_chars : nat)
          (site : call_site) (flow_nodes : list uuid) (nd : node) (is_timeout : bool) (d : draw) (timed_out_on : text)
          (prev : option result),
   n_router nd = None ->
-  let v := visit value eval_tpl to_xtext registered test lc max_result_chars site flow_nodes nd is_timeout d
+  let v := visit value eval_tpl to_xtext registered test lc max_result_chars max_template_chars site flow_nodes nd is_timeout d
                  timed_out_on prev in
   vo_outcome v = NLeft /\ vo_saved v = None /\ vo_events v = []
   /\ match n_exits nd with
@@ -212,13 +235,13 @@ Print Assumptions c07_no_router.
 Theorem c07_no_category_fails :
   forall (value : Type) (eval_tpl : text -> value * (bool * nat)) (to_xtext : value -> option text)
          (registered : test_id -> bool) (test : test_id -> value -> list value -> test_result value)
-         (lc : lctx) (max_result_chars : nat)
+         (lc : lctx) (max_result_chars max_template_chars : nat)
          (site : call_site) (flow_nodes : list uuid) (nd : node) (b : base_router) (operand_tpl : text)
          (cases : list case_def) (d : draw) (timed_out_on : text) (prev : option result),
   let operand := operand_of value eval_tpl operand_tpl in
   n_router nd = Some (Switch b operand_tpl cases no_uuid) ->
   Forall (passed_over value eval_tpl registered test lc operand) cases ->
-  let v := visit value eval_tpl to_xtext registered test lc max_result_chars site flow_nodes nd false d
+  let v := visit value eval_tpl to_xtext registered test lc max_result_chars max_template_chars site flow_nodes nd false d
                  timed_out_on prev in
   vo_outcome v = NRunFailed /\ vo_step_exit v = no_uuid /\ vo_segment v = None /\ vo_saved v = None
   /\ vo_events v = operand_events value eval_tpl operand_tpl
@@ -230,13 +253,13 @@ Print Assumptions c07_no_category_fails.
 Theorem c07_no_category_fails_general :
   forall (value : Type) (eval_tpl : text -> value * (bool * nat)) (to_xtext : value -> option text)
          (registered : test_id -> bool) (test : test_id -> value -> list value -> test_result value)
-         (lc : lctx) (max_result_chars : nat)
+         (lc : lctx) (max_result_chars max_template_chars : nat)
          (site : call_site) (flow_nodes : list uuid) (nd : node) (r : router) (is_timeout : bool) (d : draw)
          (timed_out_on : text) (prev : option result) (operand : text),
-  let out := router_out value eval_tpl to_xtext registered test lc max_result_chars r is_timeout d timed_out_on prev in
+  let out := router_out value eval_tpl to_xtext registered test lc max_result_chars max_template_chars r is_timeout d timed_out_on prev in
   n_router nd = Some r ->
   ro_res out = RExit no_uuid operand ->
-  let v := visit value eval_tpl to_xtext registered test lc max_result_chars site flow_nodes nd is_timeout d
+  let v := visit value eval_tpl to_xtext registered test lc max_result_chars max_template_chars site flow_nodes nd is_timeout d
                  timed_out_on prev in
   vo_outcome v = NRunFailed /\ vo_step_exit v = no_uuid /\ vo_segment v = None
   /\ vo_events v = ro_events out ++ [EvFailure].
@@ -247,10 +270,10 @@ Print Assumptions c07_no_category_fails_general.
 Theorem c07_consistency :
   forall (value : Type) (eval_tpl : text -> value * (bool * nat)) (to_xtext : value -> option text)
          (registered : test_id -> bool) (test : test_id -> value -> list value -> test_result value)
-         (lc : lctx) (max_result_chars : nat)
+         (lc : lctx) (max_result_chars max_template_chars : nat)
          (site : call_site) (flow_nodes : list uuid) (nd : node) (is_timeout : bool) (d : draw) (timed_out_on : text)
          (prev : option result),
-  let v := visit value eval_tpl to_xtext registered test lc max_result_chars site flow_nodes nd is_timeout d
+  let v := visit value eval_tpl to_xtext registered test lc max_result_chars max_template_chars site flow_nodes nd is_timeout d
                  timed_out_on prev in
   (vo_outcome v = NLeft ->
      (forall ex op dest, vo_segment v = Some (ex, op, dest) ->
@@ -274,10 +297,10 @@ Print Assumptions c07_consistency.
 Theorem c07_segment_operand :
   forall (value : Type) (eval_tpl : text -> value * (bool * nat)) (to_xtext : value -> option text)
          (registered : test_id -> bool) (test : test_id -> value -> list value -> test_result value)
-         (lc : lctx) (max_result_chars : nat)
+         (lc : lctx) (max_result_chars max_template_chars : nat)
          (site : call_site) (flow_nodes : list uuid) (nd : node) (is_timeout : bool) (d : draw) (timed_out_on : text)
          (prev : option result) (ex : uuid) (op : text) (dest : uuid),
-  vo_segment (visit value eval_tpl to_xtext registered test lc max_result_chars site flow_nodes nd is_timeout d
+  vo_segment (visit value eval_tpl to_xtext registered test lc max_result_chars max_template_chars site flow_nodes nd is_timeout d
                     timed_out_on prev) = Some (ex, op, dest) ->
   op = match n_router nd with
        | None => []
@@ -293,20 +316,22 @@ Print Assumptions c07_segment_operand.
 
 (* which time a timeout result records (the statement of C07 is silent on it): RouteTimeout scans the run's events and
    keeps the time of the run's FIRST wait_timed_out event — for a run that timed out before, not the time of the timeout
-   being handled, although the comment in base.go says "last" (observation, see Demo.second_timeout_records_first) *)
+   being handled, although the comment in base.go says "last" (observation, see Demo.second_timeout_records_first).
+   For an EMPTY list the model hands on the formatted zero time: a default nothing checks (a timeout resume logs its
+   wait_timed_out event before routing, so the list is never empty where RouteTimeout runs) *)
 Theorem c07_timeout_value :
   forall (value : Type) (eval_tpl : text -> value * (bool * nat)) (to_xtext : value -> option text)
          (registered : test_id -> bool) (test : test_id -> value -> list value -> test_result value)
-         (lc : lctx) (max_result_chars : nat)
+         (lc : lctx) (max_result_chars max_template_chars : nat)
          (site : call_site) (flow_nodes : list uuid) (nd : node) (r : router) (d : draw) (times : list text)
          (prev : option result) (u : uuid) (c : category),
   n_router nd = Some r ->
   b_timeout (router_base r) = Some u -> category_with (router_base r) u c -> c_exit c <> no_uuid ->
   b_result_name (router_base r) <> [] ->
   scan_timeouts times = hd zero_time_text times
-  /\ vo_saved (visit value eval_tpl to_xtext registered test lc max_result_chars site flow_nodes nd true d
+  /\ vo_saved (visit value eval_tpl to_xtext registered test lc max_result_chars max_template_chars site flow_nodes nd true d
                      (scan_timeouts times) prev)
-     = Some (result_for lc max_result_chars (router_base r) c (hd zero_time_text times) [] None).
+     = Some (result_for lc max_result_chars max_template_chars (router_base r) c (hd zero_time_text times) [] None).
 Proof. exact timeout_value_statement. Qed.
 Print Assumptions c07_timeout_value.
 
@@ -315,15 +340,15 @@ Print Assumptions c07_timeout_value.
 Theorem c07_leaves :
   forall (value : Type) (eval_tpl : text -> value * (bool * nat)) (to_xtext : value -> option text)
          (registered : test_id -> bool) (test : test_id -> value -> list value -> test_result value)
-         (lc : lctx) (max_result_chars : nat)
+         (lc : lctx) (max_result_chars max_template_chars : nat)
          (site : call_site) (flow_nodes : list uuid) (nd : node) (r : router) (is_timeout : bool) (d : draw)
          (timed_out_on : text) (prev : option result) (u : uuid) (op : text),
   n_router nd = Some r ->
-  ro_res (router_out value eval_tpl to_xtext registered test lc max_result_chars r is_timeout d timed_out_on prev)
+  ro_res (router_out value eval_tpl to_xtext registered test lc max_result_chars max_template_chars r is_timeout d timed_out_on prev)
   = RExit u op ->
   u <> no_uuid ->
-  let out := router_out value eval_tpl to_xtext registered test lc max_result_chars r is_timeout d timed_out_on prev in
-  let v := visit value eval_tpl to_xtext registered test lc max_result_chars site flow_nodes nd is_timeout d
+  let out := router_out value eval_tpl to_xtext registered test lc max_result_chars max_template_chars r is_timeout d timed_out_on prev in
+  let v := visit value eval_tpl to_xtext registered test lc max_result_chars max_template_chars site flow_nodes nd is_timeout d
                  timed_out_on prev in
   vo_outcome v = NLeft /\ vo_step_exit v = u /\ vo_saved v = ro_saved out /\ vo_events v = ro_events out
   /\ (forall e, exit_with nd u e ->
@@ -338,12 +363,12 @@ Print Assumptions c07_leaves.
 Theorem c07_case_without_category :
   forall (value : Type) (eval_tpl : text -> value * (bool * nat)) (to_xtext : value -> option text)
          (registered : test_id -> bool) (test : test_id -> value -> list value -> test_result value)
-         (lc : lctx) (max_result_chars : nat)
+         (lc : lctx) (max_result_chars max_template_chars : nat)
          (b : base_router) (operand_tpl : text) (cases : list case_def) (default : uuid) (prev : option result)
          (pre : list case_def) (c : case_def) (post : list case_def) (m : option value) (x : extra_v) (mt : text),
   let operand := operand_of value eval_tpl operand_tpl in
   let input := operand_text value eval_tpl to_xtext operand_tpl in
-  let R := route_switch value eval_tpl to_xtext registered test lc max_result_chars b operand_tpl cases default prev in
+  let R := route_switch value eval_tpl to_xtext registered test lc max_result_chars max_template_chars b operand_tpl cases default prev in
   cases = pre ++ c :: post -> Forall (passed_over value eval_tpl registered test lc operand) pre ->
   matches value eval_tpl registered test lc operand c m x ->
   opt_to_xtext value to_xtext m = Some mt -> k_cat c = no_uuid ->
@@ -351,14 +376,16 @@ Theorem c07_case_without_category :
              ++ arg_events value eval_tpl lc c ++ extra_events c x in
   (default = no_uuid -> R = {| ro_res := RExit no_uuid input; ro_saved := None; ro_events := evs |})
   /\ (forall cat, category_with b default cat ->
-      R = through lc max_result_chars b prev cat input input (extra_json x)
+      R = through lc max_result_chars max_template_chars b prev cat input input (extra_json x)
                   (evs ++ default_events value eval_tpl to_xtext operand_tpl)).
 Proof. exact case_without_category_spec. Qed.
 Print Assumptions c07_case_without_category.
 
-(* the texts in c07_random's conclusion: the saved value N_to_text idx consists of ASCII digits and denotes idx
+(* the texts in c07_random's conclusion: the saved value N_to_text idx consists of ASCII digits, denotes idx and has no
+   leading zero
    (fmt.Sprintf("%d")); draw_text (Decimal.String()) is shown on examples in proofs/RouterProofs.v *)
 Theorem c07_index_text : forall n : N,
-  Forall is_digit (N_to_text n) /\ digits_value 0 (N_to_text n) = n.
+  Forall is_digit (N_to_text n) /\ digits_value 0 (N_to_text n) = n
+  /\ (n = 0 -> N_to_text n = [48]) /\ (n <> 0 -> hd 48 (N_to_text n) <> 48).
 Proof. exact N_to_text_spec. Qed.
 Print Assumptions c07_index_text.
